@@ -4,6 +4,7 @@ package http2
 
 import (
 	"fmt"
+	"sort"
 	"strconv"
 	"strings"
 	"testing"
@@ -131,8 +132,42 @@ func init() {
 		}
 		// final windows: the scheduler must have taken exactly the bytes it released
 		out = append(out, fmt.Sprintf("conn=%d", connFlow.n))
+		if pw, ok := ws.(*priorityWriteScheduler); ok {
+			out = append(out, verifPrioDump(pw))
+		}
 		return strings.Join(out, " ")
 	}
+}
+
+// verifPrioDump: the priority tree as the scheduler holds it (map, parent pointers, sibling order, counters)
+func verifPrioDump(ws *priorityWriteScheduler) string {
+	ids := []int{}
+	for id := range ws.nodes {
+		ids = append(ids, int(id))
+	}
+	sort.Ints(ids)
+	var parts []string
+	for _, id := range ids {
+		n := ws.nodes[uint32(id)]
+		par := "-"
+		if n.parent != nil {
+			par = strconv.Itoa(int(n.parent.id))
+		}
+		var kids []string
+		for k := n.kids; k != nil; k = k.next {
+			kids = append(kids, strconv.Itoa(int(k.id)))
+		}
+		st := map[priorityNodeState]string{priorityNodeOpen: "o", priorityNodeClosed: "c", priorityNodeIdle: "i"}[n.state]
+		parts = append(parts, fmt.Sprintf("%d/%s/%d/%s/%d/%d/%d/%s", id, par, n.weight, st, n.bytes, n.subtreeBytes, len(n.q.s), strings.Join(kids, "+")))
+	}
+	lst := func(l []*priorityNode) string {
+		var x []string
+		for _, n := range l {
+			x = append(x, strconv.Itoa(int(n.id)))
+		}
+		return strings.Join(x, "+")
+	}
+	return fmt.Sprintf("tree=%s max=%d closed=%s idle=%s thr=%d", strings.Join(parts, ","), ws.maxID, lst(ws.closedNodes), lst(ws.idleNodes), ws.writeThrottleLimit)
 }
 
 func b2i(b bool) int {
